@@ -12,18 +12,52 @@ import (
 	"github.com/philpearl/plenc/plenccore"
 )
 
+// wrappedCodecRegistry is the registry used while a struct codec is being
+// built. It makes the incomplete struct codec available to the codecs of the
+// struct's fields, so that recursive types work. Codecs built in the meantime
+// may refer to the incomplete struct codec, so they are held back here and
+// only passed on to the underlying registry once the struct codec is complete.
+// If the build fails they are dropped.
 type wrappedCodecRegistry struct {
 	CodecRegistry
-	typ   reflect.Type
-	tag   string
-	codec Codec
+	typ     reflect.Type
+	tag     string
+	codec   Codec
+	pending map[pendingKey]Codec
 }
 
-func (w wrappedCodecRegistry) Load(typ reflect.Type, tag string) Codec {
+type pendingKey struct {
+	typ reflect.Type
+	tag string
+}
+
+func (w *wrappedCodecRegistry) Load(typ reflect.Type, tag string) Codec {
 	if typ == w.typ && tag == w.tag {
 		return w.codec
 	}
+	if c, ok := w.pending[pendingKey{typ: typ, tag: tag}]; ok {
+		return c
+	}
 	return w.CodecRegistry.Load(typ, tag)
+}
+
+func (w *wrappedCodecRegistry) StoreOrSwap(typ reflect.Type, tag string, c Codec) Codec {
+	if existing := w.Load(typ, tag); existing != nil {
+		return existing
+	}
+	if w.pending == nil {
+		w.pending = make(map[pendingKey]Codec)
+	}
+	w.pending[pendingKey{typ: typ, tag: tag}] = c
+	return c
+}
+
+// publish passes the held-back codecs on to the underlying registry
+func (w *wrappedCodecRegistry) publish() {
+	for k, c := range w.pending {
+		w.CodecRegistry.StoreOrSwap(k.typ, k.tag, c)
+	}
+	w.pending = nil
 }
 
 func BuildStructCodec(p CodecBuilder, registry CodecRegistry, typ reflect.Type, tag string) (Codec, error) {
@@ -36,7 +70,8 @@ func BuildStructCodec(p CodecBuilder, registry CodecRegistry, typ reflect.Type, 
 		fields: make([]description, typ.NumField()),
 	}
 
-	registry = wrappedCodecRegistry{CodecRegistry: registry, typ: typ, tag: tag, codec: &c}
+	wrapped := &wrappedCodecRegistry{CodecRegistry: registry, typ: typ, tag: tag, codec: &c}
+	registry = wrapped
 
 	var maxIndex int
 	var count int
@@ -118,6 +153,9 @@ func BuildStructCodec(p CodecBuilder, registry CodecRegistry, typ reflect.Type, 
 			offset: f.offset,
 		}
 	}
+
+	// The codec is complete: codecs that refer to it can be made available
+	wrapped.publish()
 
 	return &c, nil
 }
